@@ -83,18 +83,20 @@ type Fake struct {
 	conns int
 
 	// scripts
-	Next       map[string]Outcome
-	SnapFail   bool
-	RevFail    bool  // next SetRevisionCounter fails
+	Next     map[string]Outcome
+	SnapFail bool
+	RevFail  bool // next SetRevisionCounter fails
 	// CloneScript: clone statuses reported by successive polls (the last one stays)
 	CloneScript []string
 	ClonePolls  int
 	// FailNextMgmt: the next management call whose name starts with this string fails (admission steps of an add)
 	FailNextMgmt string
-	GetDelayMs int32 // REST GET answered this late (atomic)
-	CpFail     bool
-	ResizeFail bool
-	Jitter     int // max per-call delay in 100us units (0 = none)
+	GetDelayMs   int32 // REST GET answered this late (atomic)
+	DropDelete   int32 // DELETE /v1/delete: the process exits while it purges - the connection ends without an answer (atomic)
+	Deleted      int32 // DELETE /v1/delete requests answered (atomic)
+	CpFail       bool
+	ResizeFail   bool
+	Jitter       int // max per-call delay in 100us units (0 = none)
 
 	Rejected     []uint32 // ids of writes this replica received but did not apply
 	ReadsServed  int
@@ -121,7 +123,7 @@ type Conn struct {
 	inject      chan error
 	StopCalls   int32
 	ErrInjected int32
-	Delivered   int32 // the one monitor event has been put on the channel
+	Delivered   int32         // the one monitor event has been put on the channel
 	hold        chan struct{} // if set, the monitor event is delivered only after this channel is closed
 	// net mode: the attachment lives behind the real backend; tcp is its data connection
 	net     bool
@@ -664,6 +666,31 @@ func (f *Fake) startHTTP() error {
 		w.Write([]byte("pong"))
 	})
 	mux.HandleFunc("/v1/replicas/1", f.handleReplica)
+	// the volume-delete request (controller: POST /v1/delete -> per replica GET /v1/replicas/1, DELETE /v1/delete). A real
+	// replica purges its directory and its process ends when the controller drops the data connection of the closed
+	// replica: the DELETE request can end without an answer although the GET before it was answered.
+	mux.HandleFunc("/v1/delete", func(w http.ResponseWriter, r *http.Request) {
+		if r.Method != "DELETE" {
+			w.WriteHeader(405)
+			return
+		}
+		f.mu.Lock()
+		alive := f.Alive
+		f.call("REST:delete")
+		f.mu.Unlock()
+		if !alive || atomic.LoadInt32(&f.DropDelete) > 0 {
+			if hj, ok := w.(http.Hijacker); ok {
+				if c, _, err := hj.Hijack(); err == nil {
+					c.Close()
+					return
+				}
+			}
+			w.WriteHeader(503)
+			return
+		}
+		atomic.AddInt32(&f.Deleted, 1)
+		w.Write([]byte("{}"))
+	})
 	f.srv = &http.Server{Handler: mux}
 	go f.srv.Serve(l)
 	return nil
